@@ -117,7 +117,13 @@ StaticFails(q, r) ==
     ELSE Fails("served_outside_root", ~(r.status = 200 /\ r.outside = 1)) \cup
          \* a path that resolves outside the root yields 404
          Fails("escape_not_404", Walk(q.segs, 1, 0) = "inside" \/ r.status = 404) \cup
-         \* sanity of the binding: plain paths inside the root are served (otherwise the check would be vacuous)
-         Fails("plain_inside_not_served", q.target = "" \/ (r.status = 200 /\ r.file = q.target))
+         \* sanity of the binding: plain paths inside the root are served (otherwise the check would be vacuous);
+         \* stated for clients that accept every coding, so that a negotiation problem is not mistaken for an escape
+         Fails("plain_inside_not_served", q.target = "" \/ q.acc # "all" \/ (r.status = 200 /\ r.file = q.target)) \cup
+         \* beyond C07 (observations): static files are negotiated like tiles -- the coding sent is one the client listed,
+         \* and the decoded body is the file whatever the client accepts (precompressed siblings are re-coded if need be)
+         Fails("api_static_encoding_listed", r.status # 200 \/ r.cenc = "" \/ r.cenc \in {q.accept[i] : i \in 1..Len(q.accept)}) \cup
+         Fails("api_static_content", q.target = "" \/ r.status # 200 \/ r.file = q.target) \cup
+         Fails("api_static_served_for_every_client", q.target = "" \/ r.status = 200)
 
 =============================================================================
